@@ -946,6 +946,7 @@ pub fn c04() -> RenderProp {
             keys: (8, 12),
             sub_depth: 1,
             w_kinds: [1, 1, 0, 12, 0, 1, 3],
+            precise_float_key: true,
             p_null: 3,
             p_absent: 3,
             p_kind_varies: 10,
